@@ -403,7 +403,7 @@ func (a *idxProver) proveRec(e lin, facts []ineq, depth int, seen map[string]int
 			if pc == 0 || (pc > 0) != (c > 0) || c%pc != 0 {
 				continue
 			}
-			if a.proveRec(e.addScaled(f.p, -(c / pc)), facts, depth-1, seen) {
+			if a.proveRec(e.addScaled(f.p, -(c/pc)), facts, depth-1, seen) {
 				return true
 			}
 		}
@@ -694,6 +694,44 @@ func runIdxBound(p *core.Prog) *core.Result {
 		default:
 			res.Bad(key, pos, "k >= 0 does not follow from the index's defining expressions and the conditions controlling this call: a negative k addresses memory before the view")
 		}
+	}
+	// typedArray.export(offset, length) builds unsafe.Slice(ptr(offset), length): the arguments are
+	// the view's own offset and length, in elements (ptr scales by the element size itself)
+	for _, fn := range p.Funcs {
+		if !p.InModule(fn) || fn.Blocks == nil {
+			continue
+		}
+		k := 0
+		core.AllInstrs(fn, func(in ssa.Instruction) {
+			c, ok := in.(*ssa.Call)
+			if !ok || !c.Call.IsInvoke() || c.Call.Method.Name() != "export" || len(c.Call.Args) != 2 {
+				return
+			}
+			ld, ok := c.Call.Value.(*ssa.UnOp)
+			if !ok {
+				return
+			}
+			fa, ok := ld.X.(*ssa.FieldAddr)
+			if !ok || core.FieldOf(fa) != fTA {
+				return
+			}
+			X := core.Origin(fa.X)
+			isField := func(v ssa.Value, f *types.Var) bool {
+				l, ok := core.Origin(v).(*ssa.UnOp)
+				if !ok || l.Op != token.MUL {
+					return false
+				}
+				a, ok := l.X.(*ssa.FieldAddr)
+				return ok && core.FieldOf(a) == f && core.Origin(a.X) == X
+			}
+			k++
+			key := fmt.Sprintf("%s:export(offset, length)#%d", core.FuncName(fn), k)
+			if isField(c.Call.Args[0], fOff) && isField(c.Call.Args[1], fLen) {
+				res.OK(key, p.Pos(c.Pos()), "called with the view's own offset and length (element units)")
+			} else {
+				res.Bad(key, p.Pos(c.Pos()), "typedArray.export is not called with exactly (X.offset, X.length): the exported Go slice is built with unsafe.Slice from these numbers, so a scaled or shifted offset aliases the wrong bytes or memory past the buffer")
+			}
+		})
 	}
 	res.Count("accessor call sites", len(sites))
 	res.Count("sites of the form X.offset+k", inScope)
